@@ -294,7 +294,7 @@ func discharge(o *Obl, timeoutS int) *SolveResult {
 	if o.Kind == "vacuity" {
 		// expected: NOT unsat (sat, or unknown because of quantifiers)
 		text := o.smt("false", false)
-		st, sv, out, _ := race(text, minInt(timeoutS, 5), o.Name, []int{0, 1})
+		st, sv, out, _ := race(text, minInt(timeoutS, 2), o.Name, []int{0, 1})
 		r := &SolveResult{Solver: sv, Ms: time.Since(t0).Milliseconds(), Output: firstLines(out, 3), Rung: "vacuity"}
 		if st == "unsat" {
 			r.Status = "refuted" // contradictory assumptions
